@@ -523,6 +523,10 @@ func (m *Map) resize(knownTable *mapTable, hint mapResizeHint) {
 	if !atomic.CompareAndSwapInt64(&m.resizing, 0, 1) {
 		// Someone else started resize. Wait for it to finish.
 		m.waitForResize()
+		if hint == mapClearHint {
+			// A clear must not be dropped: clear the table that the other resize published.
+			m.resize((*mapTable)(atomic.LoadPointer(&m.table)), mapClearHint)
+		}
 		return
 	}
 	var newTable *mapTable
